@@ -185,6 +185,18 @@ func (d *dethunkQueue) shift() func() {
 	return f
 }
 
+// forceThunk calls v while it is a deferred value: a thunk may itself
+// yield a thunk, and none may be left in the response.
+func forceThunk(v interface{}) interface{} {
+	for {
+		f, ok := v.(func() interface{})
+		if !ok {
+			return v
+		}
+		v = f()
+	}
+}
+
 // dethunkWithBreadthFirstTraversal performs a breadth-first descent of the map, calling any thunks
 // in the map values and replacing each thunk with that thunk's return value. This parallels
 // the reference graphql-js implementation, which calls Promise.all on thunks at each depth (which
@@ -200,10 +212,7 @@ func dethunkMapWithBreadthFirstTraversal(finalResults map[string]interface{}) {
 
 func dethunkMapBreadthFirst(m map[string]interface{}, dethunkQueue *dethunkQueue) {
 	for _, k := range sortedKeys(m) {
-		v := m[k]
-		if f, ok := v.(func() interface{}); ok {
-			m[k] = f()
-		}
+		m[k] = forceThunk(m[k])
 		switch val := m[k].(type) {
 		case map[string]interface{}:
 			dethunkQueue.push(func() { dethunkMapBreadthFirst(val, dethunkQueue) })
@@ -215,9 +224,7 @@ func dethunkMapBreadthFirst(m map[string]interface{}, dethunkQueue *dethunkQueue
 
 func dethunkListBreadthFirst(list []interface{}, dethunkQueue *dethunkQueue) {
 	for i, v := range list {
-		if f, ok := v.(func() interface{}); ok {
-			list[i] = f()
-		}
+		list[i] = forceThunk(v)
 		switch val := list[i].(type) {
 		case map[string]interface{}:
 			dethunkQueue.push(func() { dethunkMapBreadthFirst(val, dethunkQueue) })
@@ -230,9 +237,7 @@ func dethunkListBreadthFirst(list []interface{}, dethunkQueue *dethunkQueue) {
 // dethunkValueDepthFirst forces v if it is a thunk and then everything
 // deferred below it, returning the forced value.
 func dethunkValueDepthFirst(v interface{}) interface{} {
-	if f, ok := v.(func() interface{}); ok {
-		v = f()
-	}
+	v = forceThunk(v)
 	switch val := v.(type) {
 	case map[string]interface{}:
 		dethunkMapDepthFirst(val)
@@ -248,10 +253,7 @@ func dethunkValueDepthFirst(v interface{}) interface{} {
 // implementations for mutation selects.
 func dethunkMapDepthFirst(m map[string]interface{}) {
 	for _, k := range sortedKeys(m) {
-		v := m[k]
-		if f, ok := v.(func() interface{}); ok {
-			m[k] = f()
-		}
+		m[k] = forceThunk(m[k])
 		switch val := m[k].(type) {
 		case map[string]interface{}:
 			dethunkMapDepthFirst(val)
@@ -263,9 +265,7 @@ func dethunkMapDepthFirst(m map[string]interface{}) {
 
 func dethunkListDepthFirst(list []interface{}) {
 	for i, v := range list {
-		if f, ok := v.(func() interface{}); ok {
-			list[i] = f()
-		}
+		list[i] = forceThunk(v)
 		switch val := list[i].(type) {
 		case map[string]interface{}:
 			dethunkMapDepthFirst(val)
